@@ -27,6 +27,8 @@ var dynPrograms = []string{
 	"if(c, [n, 1], [2, n])[i]",
 	"if(c, m, [\"a\": 5])[\"a\"] + get(mb, 7)",
 	"if(c, lz, lz)(tr(1, 1), tr(2, 2))",
+	"if(c, h2, h2)(tr(1, 1), tr(2, 2)) + [h2][0](tr(3, 3), [f, g][i](tr(4, 4)))",
+	"[h2, h2][i](if(c, f, g)(tr(1, 1)), tr(2, n))",
 }
 
 // dynVariants: the environments a history is drawn from (same types, different values).
@@ -40,6 +42,7 @@ func dynTypeEnv() *types.Env {
 	e.Put("f", fT)
 	e.Put("g", fT)
 	e.Put("lz", lzT)
+	e.Put("h2", types.Fun("h2", []*types.Type{types.Num, types.Num}, types.Num))
 	e.Put("m", types.Map(types.Str, types.Num))
 	e.Put("mb", types.Maybe(types.Num))
 	return e
@@ -90,6 +93,10 @@ func dynValEnv(variant int, h *real.Host) *val.Env {
 	}
 	e.Put("m", m.Vl())
 	e.Put("lz", lz)
+	e.Put("h2", val.Fun(types.Fun("h2", []*types.Type{types.Num, types.Num}, types.Num), func(x ...*val.Val) *val.Val {
+		logf("h2(%v,%v)", x[0].Num().V, x[1].Num().V)
+		return val.Num(x[0].Num().V*10 + x[1].Num().V)
+	}))
 	return e
 }
 
